@@ -231,9 +231,20 @@ func TestC16(t *testing.T) {
 	rep := newReport()
 	defer rep.Write(t)
 	rep.Rule = "(codec) all label lengths 0..256 x 6 packet payloads incl. ones starting with the magic byte; streams: all lengths 1..255 x 4 payloads under 1-byte-at-a-time delivery, every single split point of the first 2+len+3 bytes, every pair of split points for lengths 1,2,7,255, EOF at every header offset; (isolation) 5x5 sender/receiver labels x SkipInboundLabelCheck x encryption x 15 genuine message families on the packet and stream paths against a pristine populated receiver"
-	rep.Assumptions = []string{"the isolation oracle states a necessary condition for having an effect; compatible-looking pairs that still fail to talk are not violations", "the mixed-label multi-node world (Engine N) is not part of this check"}
+	rep.Assumptions = []string{"the isolation oracle states a necessary condition for having an effect; compatible-looking pairs that still fail to talk are not violations", "mixed-label world: 4 nodes, two labels, <= 1 packet fault per history"}
 	labels := []string{"", "a", "ab", "b", strings.Repeat("L", 255)}
 	rep.Bounds = map[string]any{"labels": "none, a, ab, b, 255 B", "codec_label_lengths": "0..256"}
+	var mrp c16MixScn
+	if loadReplay(&mrp) && len(mrp.Prefix) > 0 {
+		x := runC16Mixed(t, mrp)
+		t.Logf("replay: %q %s", x.Verdict, x.Msg)
+		if x.Verdict != "" {
+			rep.Violate("mixed-world:"+x.Verdict, x.Msg, mrp)
+		}
+		rep.Evaluations, rep.Distinct = 1, 2
+		rep.Samples = append(rep.Samples, mrp)
+		return
+	}
 	var rp c16Iso
 	replay := loadReplay(&rp)
 	if !replay {
@@ -305,5 +316,147 @@ func TestC16(t *testing.T) {
 			}
 		}
 	}
+	if !replay {
+		c16MixedAll(t, rep)
+	}
 	rep.Sample(map[string]any{"isolation_cell": c16Iso{"ab", "a", false, true}.String(), "codec": "label of 255 bytes starting with 0xf4, payload starting with 0xf4, stream split at 1 and 256"})
+}
+
+// ---------------------------------------------------------------- mixed-label world (Engine N)
+
+type c16MixScn struct {
+	Enc    bool     `json:"enc"`
+	Prefix []int    `json:"choices"`
+	Devs   []string `json:"deviations,omitempty"`
+}
+
+// Two logical clusters (labels "blue": n0,n1 and "green": n2,n3) share one
+// simulated network. n0 is given a poisoned join list naming a green node, and
+// a green node is told to join a blue one. No node may ever list, probe, ack or
+// relay for a member of the other cluster.
+func runC16Mixed(t *testing.T, s c16MixScn) (x nExec) {
+	ch := &chooser{prefix: s.Prefix}
+	res := inBubble(t, func(b *bubble) {
+		label := func(i int) string {
+			if i < 2 {
+				return "blue"
+			}
+			return "green"
+		}
+		cfg := clusterCfg{N: 4, L0: time.Millisecond, LatAlt: []time.Duration{200 * time.Millisecond}, AllowDrop: true, AllowDup: true,
+			FaultFrom: 0, FaultTo: time.Hour, Horizon: 5 * time.Second,
+			Opts: func(i int, c *ml.Config) {
+				c.Label = label(i)
+				c.ProbeInterval = time.Second
+				c.ProbeTimeout = 400 * time.Millisecond
+				c.GossipInterval = 200 * time.Millisecond
+				c.PushPullInterval = 2 * time.Second
+				c.TCPTimeout = time.Second
+				if s.Enc {
+					kr, _ := ml.NewKeyring(nil, keyK1)
+					c.Keyring = kr
+				}
+			}}
+		c := newCluster(t, b, cfg, ch)
+		for i := 0; i < 4; i++ {
+			c.startTicks(i)
+		}
+		c.at(10*time.Millisecond, "join-blue", func() { go func() { _, _ = c.nodes[1].M.Join([]string{nodeAddr(0)}) }() })
+		c.at(20*time.Millisecond, "join-green", func() { go func() { _, _ = c.nodes[3].M.Join([]string{nodeAddr(2)}) }() })
+		c.at(500*time.Millisecond, "poisoned-join", func() { go func() { _, _ = c.nodes[0].M.Join([]string{nodeAddr(1), nodeAddr(2)}) }() })
+		c.at(900*time.Millisecond, "cross-join", func() { go func() { _, _ = c.nodes[3].M.Join([]string{nodeAddr(1)}) }() })
+		// a green node also sprays a genuine (green-labelled) alive about itself at a blue node
+		c.at(1300*time.Millisecond, "cross-gossip", func() {
+			a, _ := ml.VEncode(ml.VAliveMsg, &ml.VAlive{Incarnation: 9, Node: "n2", Addr: nodeIP(2), Port: uint16(nodePort(2)), Vsn: defaultVsn}, false)
+			_ = c.nodes[2].M.VRawSendMsgPacket(nodeAddr(0), "n0", nil, a)
+			p, _ := ml.VEncode(ml.VPingMsg, &ml.VPing{SeqNo: 99, Node: "n0", SourceAddr: nodeIP(2), SourcePort: uint16(nodePort(2)), SourceNode: "n2"}, false)
+			_ = c.nodes[2].M.VRawSendMsgPacket(nodeAddr(0), "n0", nil, p)
+			ind, _ := ml.VEncode(ml.VIndirectPingMsg, &ml.VIndirectPingReq{SeqNo: 98, Target: nodeIP(1), Port: uint16(nodePort(1)), Node: "n1", Nack: true, SourceAddr: nodeIP(2), SourcePort: uint16(nodePort(2)), SourceNode: "n2"}, false)
+			_ = c.nodes[2].M.VRawSendMsgPacket(nodeAddr(0), "n0", nil, ind)
+		})
+		scripted := map[string]bool{} // the harness's own cross-cluster sends
+		c.StepCheck = func(c *cluster) string {
+			for i, n := range c.nodes {
+				for _, m := range n.M.Members() {
+					var j int
+					fmt.Sscanf(m.Name, "n%d", &j)
+					if label(i) != label(j) {
+						return fmt.Sprintf("%s (%s) lists %s (%s)", n.Name, label(i), m.Name, label(j))
+					}
+				}
+				for _, r := range n.M.VSnapshot().Recs {
+					var j int
+					fmt.Sscanf(r.Name, "n%d", &j)
+					if label(i) != label(j) {
+						return fmt.Sprintf("%s holds a record of %s from the other cluster", n.Name, r.Name)
+					}
+				}
+			}
+			return ""
+		}
+		c.run()
+		_ = scripted
+		x.Digest = c.digest()
+		if c.stepFail != "" {
+			x.Verdict, x.Msg = "cross-cluster-membership", c.stepFail
+		}
+		// wire: apart from the scripted cross-cluster sends of n2/n3 and the poisoned join of n0, nobody talks across
+		for _, w := range c.Wire {
+			var fi, ti int
+			fmt.Sscanf(w.From, "n%d", &fi)
+			if to := c.byAdr[w.To]; to != nil {
+				ti = to.idx
+			} else {
+				continue
+			}
+			if label(fi) == label(ti) {
+				continue
+			}
+			if fi == 2 && w.At >= 1300*time.Millisecond && w.At < 1301*time.Millisecond {
+				continue // the scripted spray
+			}
+			x.Verdict, x.Msg = "cross-cluster-packet", fmt.Sprintf("%v %s->%s %v: a node answered, probed or relayed for the other cluster", w.At, w.From, w.To, w.Leaves)
+		}
+		x.Extra = map[string]any{"packets": len(c.Wire)}
+	})
+	x.Choices = make([]int, len(ch.pts))
+	for i, p := range ch.pts {
+		x.Choices[i] = p.Pick
+	}
+	x.Pts = ch.pts
+	if res.Panic != nil {
+		x.Verdict, x.Msg = "panic", fmt.Sprint(res.Panic)
+	}
+	if ch.div != "" && x.Verdict == "" {
+		x.Verdict, x.Msg = "replay-divergence", ch.div
+	}
+	return
+}
+
+func c16MixedAll(t *testing.T, rep *Report) {
+	execs := 0
+	for ei, enc := range []bool{false, true} {
+		s := c16MixScn{Enc: enc}
+		sidx := 900000 + ei*7919
+		exploreN(rep, 1, &sidx, func(prefix []int) nExec {
+			s2 := s
+			s2.Prefix = prefix
+			journal("C16 mixed %+v", s2)
+			return runC16Mixed(t, s2)
+		}, func(x nExec) {
+			execs++
+			rep.Evaluations++
+			if x.Verdict != "" {
+				s2 := s
+				s2.Prefix = x.Choices
+				s2.Devs = devStr(x.Pts)
+				rep.Violate("mixed-world:"+x.Verdict, fmt.Sprintf("enc=%v: %s; deviations %v", enc, x.Msg, devStr(x.Pts)), s2)
+				rep.Outcome("VIOLATION")
+			} else {
+				rep.Outcome("mixed-world-isolated")
+				rep.Distinct++
+			}
+		})
+	}
+	rep.Extra["mixed_world_executions"] = execs
 }
